@@ -50,9 +50,11 @@ DiscUniverse ==
 W(mp) == CASE mp = <<>> -> 1 [] mp = <<"a">> -> 2 [] mp = <<"b">> -> 4 [] mp = <<"a", "a">> -> 8
            [] mp = <<"a", "b">> -> 16 [] mp = <<"b", "a">> -> 32 [] mp = <<"b", "b">> -> 64 [] OTHER -> 128
 RECURSIVE SumW(_)
-SumW(S) == IF S = {} THEN 0 ELSE LET x == CHOOSE x \in S : TRUE IN W(x) + SumW(S \ {x})
+SumW(XS) == IF XS = {} THEN 0 ELSE LET x == CHOOSE x \in XS : TRUE IN W(x) + SumW(XS \ {x})
 (* the placement "every module declares f, g, k" is always kept; the others are sliced *)
 InSlice(b) == \/ b.P = Modules(b.files)
+              \* the sibling family needs a base in which the probing module does not declare the names itself
+              \/ (Families = {"sib"} /\ b.site = <<>> /\ b.P = Modules(b.files) \ {b.site})
               \/ ((SumW(b.P) * 7 + W(b.site) * 13 + Cardinality(b.files)) % NSlices) = Slice
 
 IsChainTree(t) == t \in {"c3full", "c3nob", "c3noa", "c3none"}
@@ -83,8 +85,9 @@ ItemsOf(b) ==
 (* probes *)
 
 Imp(sc, path, grp) == [sc |-> sc, path |-> path, grp |-> grp]
-Pr(fam, imps, locals, depth, ref) ==
-  [fam |-> fam, imps |-> imps, locals |-> locals, depth |-> depth, ref |-> ref]
+Pr2(fam, imps, locals, depth, ref, sibs, forms) ==
+  [fam |-> fam, imps |-> imps, locals |-> locals, depth |-> depth, ref |-> ref, sibs |-> sibs, forms |-> forms]
+Pr(fam, imps, locals, depth, ref) == Pr2(fam, imps, locals, depth, ref, {}, NoForms)
 NoProbe == Pr("none", <<>>, {}, 0, <<>>)
 Lk(i, param) == [i |-> i, n |-> "k", param |-> param]
 
@@ -196,13 +199,32 @@ FamInOut(b) ==
   \cup UNION {{Pr("inout", <<Imp(lp[1], Abs(x), 0)>>, ls, lp[2], <<Last(x), "f">>) :
                  lp \in IoLevels(b), ls \in IoLocals(Last(x))} : x \in Modules(b.files) \ {<<>>, b.site}}
 
+(* sibling scopes: the block-like scope next to block level i (the other branch of an if, another arm of  *)
+(* the match, a block before / after) holds a `let` or an import of the referenced name; the reference in *)
+(* B(i) (or deeper) must not see it, whatever construct opens the two scopes. With and without the same  *)
+(* name declared in the module, imported at module level or in the function body, or bound by an outer let. *)
+SibForms == {"plain", "else", "then", "arm1", "arm2", "after"}
+FormsAt(i, f) == [j \in 1..3 |-> IF j = i THEN f ELSE "plain"]
+Sk(i, n) == [i |-> i, n |-> n]
+SibOuter(b, n) ==
+  {<< <<>>, {} >>, << <<>>, {Ln(1, n, TRUE)} >>, << <<>>, {Ln(1, n, FALSE)} >>}
+  \cup {<< <<Imp(sc, Abs(Append(m, n)), 0)>>, {} >> : sc \in {M(b.site), B(1)}, m \in Near(b) \ {b.site}}
+FamSib(b) ==
+  UNION {UNION {
+     {Pr2("sib", o[1], o[2], d, <<n>>, {Sk(i, n)}, FormsAt(i, f)) : d \in i..3}
+     \cup {Pr2("sib", o[1] \o <<Imp(S(i), Abs(Append(m, n)), 0)>>, o[2], d, <<n>>, {}, FormsAt(i, f)) :
+             d \in i..3, m \in Near(b) \ {b.site}}
+     : o \in SibOuter(b, n), i \in {2, 3}, f \in SibForms} : n \in {"f", "k"}}
+  \cup {Pr2("sib", <<Imp(S(i), Abs(x), 0)>>, {}, i, <<Last(x), "f">>, {}, FormsAt(i, f)) :   \* whole-module import in the sibling
+          x \in Modules(b.files) \ {<<>>, b.site}, i \in {2, 3}, f \in SibForms}
+
 FamDisc(b) ==
   {Pr("disc", <<>>, {}, 1, Abs(Append(mp, "f"))) : mp \in FileMods(b.files) \cup {<<>>}}
 
 Fam(f, b) ==
   CASE f = "path" -> FamPath(b) [] f = "imp1" -> FamImp1(b) [] f = "list" -> FamList(b)
     [] f = "modimp" -> FamModImp(b) [] f = "chain" -> FamChain(b) [] f = "shadow" -> FamShadow(b)
-    [] f = "two" -> FamTwo(b) [] f = "other" -> FamOther(b) [] f = "chain3" -> FamChain3(b) [] f = "inout" -> FamInOut(b)
+    [] f = "two" -> FamTwo(b) [] f = "other" -> FamOther(b) [] f = "chain3" -> FamChain3(b) [] f = "inout" -> FamInOut(b) [] f = "sib" -> FamSib(b)
 
 Probes(b) == IF b.tree = "disc" THEN FamDisc(b) ELSE UNION {Fam(f, b) : f \in Families}
 
@@ -211,7 +233,7 @@ MCInit == base \in (ResBases \cup DiscBases) /\ probe = NoProbe
 MCNext == probe = NoProbe /\ probe' \in Probes(base) /\ UNCHANGED base
 MCSpec == MCInit /\ [][MCNext]_<<base, probe>>
 
-CfgOf(b, pr) == Cfg(b.files, ItemsOf(b), b.site, pr.imps, pr.locals, pr.depth, pr.ref)
+CfgOf(b, pr) == Cfg2(b.files, ItemsOf(b), b.site, pr.imps, pr.locals, pr.depth, pr.ref, pr.sibs, pr.forms)
 
 Case(b, pr) ==
   LET c   == CfgOf(b, pr)
@@ -220,6 +242,7 @@ Case(b, pr) ==
   IN  [fam |-> pr.fam, tree |-> b.tree, files |-> c.files, mods |-> c.mods, items |-> c.items,
        site |-> c.site, imps |-> c.imps, locals |-> c.locals, depth |-> c.depth, ref |-> c.ref,
        exp |-> e, alts |-> IF e.k = "unspec" \/ (a.super = e /\ a.seq = e /\ a.pkg = e /\ a.impl = e) THEN <<>> ELSE <<a>>,
+       sibs |-> c.sibs, forms |-> c.forms, sibsens |-> SibSensitive(c),
        exports |-> Exports(c), rule |-> Rule(c), outer |-> OuterNamesakes(c), ivo |-> InnerVsOuter(c)]
 
 Emit == (probe.fam # "none") => PrintT(<<"REPLAY", ToJson(Case(base, probe))>>)
